@@ -57,8 +57,15 @@ def classify(exc):
 
 
 # ------------------------------------------------------------------------------------------------ names
+# ordinary fixtures whose names are pieces of the reserved names: valid names, only equality with a reserved name matters
+# (a membership test written against a string instead of a tuple would reject them)
+FX_NAMES = {0: "fixture_name", 1: "cli_args", 2: "project_dir",
+            3: "name", 4: "fixture", 5: "args", 6: "cli", 7: "project", 8: "dir", 9: "e"}
+FX_IDS = {v: k for k, v in FX_NAMES.items()}
+
+
 def fx_str(n):
-    return {0: "fixture_name", 1: "cli_args", 2: "project_dir"}.get(n, "f%d" % n)
+    return FX_NAMES.get(n, "f%d" % n)
 
 
 def path_str(p):
